@@ -146,7 +146,7 @@ def mutants(chk, prop, tier, wd, tape_files):
         if os.path.exists(out):
             os.remove(out)
         text = "CONSTANTS\n  SeedFile = %s\n  OutFile = %s\n  Sel = %s\nSPECIFICATION Spec\nINVARIANT Emit\nCHECK_DEADLOCK FALSE\n" % (tla_string(seeds), tla_string(out), sel)
-        r = tlc_must_pass("TreeFaults", text, os.path.join(wd, "tf-" + tag), workers=WORKERS, heap="6g", timeout=3000, name="TreeFaults_" + tag)
+        r = tlc_must_pass("TreeFaults", text, os.path.join(wd, "tf-" + tag), workers=WORKERS, heap="6g", timeout=9000, name="TreeFaults_" + tag)
         chk.add_states(r)
         chk.notes.setdefault("tree_fault_mutants", {})[tag] = r.distinct
         outs.append(out)
